@@ -775,7 +775,7 @@ def r01_14(rep, M, rid):
     if witness:
         rep.violation(rid, f"get_clusters: enlargement test `{norm(t.test)}`", f"with scaled coordinates spanning [{witness[0]}, {witness[1]}] along a "
                       "non-periodic axis (atoms outside the cell) the test is false: the cell is not enlarged and re-centred, the atoms stay outside "
-                      "the cell and the scaled-position logic downstream fails (IndexError/AxisError instead of clusters)", M.where(GC, t))
+                      "the cell (wrap() leaves non-periodic coordinates alone), the cell list and the search within the basis never see them: no region, no cluster and no prototype cell for a structure that was merely stored outside its box", M.where(GC, t))
     elif not nonper:
         rep.violation(rid, "get_clusters: enlargement test scope", "the enlargement is not restricted to non-periodic axes", M.where(GC, t))
     else:
